@@ -719,6 +719,7 @@ type vf27Seg struct {
 	Parts   [][]vf27Sample // samples of part i (index 0 = part 1), parsed with mediacommon
 	DurOff  int            // offset of mvhd.DurationV0
 	HdrDur  int64          // ms
+	LayoutErr string       // not "" if the file is not header + (moof mdat)*: only Boxes is filled then
 	StartMs int64          // file-name instant, ms after vf27Base
 	Stream  string         // mtxi stream id (hex)
 	Number  uint64         // mtxi segment number
@@ -733,10 +734,18 @@ func vf27LoadSeg(t testing.TB, fpath string) *vf27Seg {
 	sg := &vf27Seg{Path: fpath, Bytes: b}
 	sg.Boxes, err = vf27TopBoxes(b)
 	if err != nil || len(sg.Boxes) < 2 || sg.Boxes[0].Type != "ftyp" || sg.Boxes[1].Type != "moov" {
-		t.Fatalf("recorded file %s has an unexpected layout: %v %v", fpath, sg.Boxes, err)
+		sg.LayoutErr = fmt.Sprintf("no ftyp+moov header (%v)", err)
+		return sg
 	}
 	if (len(sg.Boxes)-2)%2 != 0 {
-		t.Fatalf("recorded file %s: parts are not moof+mdat pairs: %v", fpath, sg.Boxes)
+		sg.LayoutErr = "parts are not moof+mdat pairs"
+		return sg
+	}
+	for i := 2; i < len(sg.Boxes); i += 2 {
+		if sg.Boxes[i].Type != "moof" || sg.Boxes[i+1].Type != "mdat" {
+			sg.LayoutErr = "parts are not moof+mdat pairs"
+			return sg
+		}
 	}
 	sg.Units = []int{0}
 	sg.Zones = [][4]int{{0, 8, sg.Boxes[1].Off, sg.Boxes[1].Off + 8}}
@@ -805,22 +814,27 @@ func vf27IDs(ss []vf27Sample) [][2]int {
 
 // ---------------------------------------------------------------------------- the standard streams
 
-// vf27StdRun: two segments of three parts each. "va": H264 25 fps with an IDR every 320 ms plus
-// audio every 30 ms; "a": audio only.
+// vf27StdRun: two segments of at least three parts each. "va": H264 25 fps with an IDR every
+// 200 ms (so that the 300 ms segment duration elapses between two IDRs) plus audio every 30 ms;
+// "a": audio only.
 func vf27StdRun(kind string, t0 int64) (vf27Run, map[int]vf27Unit) {
 	run := vf27Run{Video: kind == "va", Audio: true, PartMs: 100, SegMs: 300}
 	var us []vf27Unit
 	id := 1
 	if kind == "va" {
-		for ms := int64(0); ms < 600; ms += 40 {
-			us = append(us, vf27Unit{Track: 1, T: t0 + ms, NTP: ms, Sync: ms%320 == 0})
+		for ms := int64(0); ms < 800; ms += 40 {
+			us = append(us, vf27Unit{Track: 1, T: t0 + ms, NTP: ms, Sync: ms%200 == 0})
 		}
 	}
 	atr := 2
 	if kind != "va" {
 		atr = 1
 	}
-	for ms := int64(0); ms < 600; ms += 30 {
+	alen := int64(600)
+	if kind == "va" {
+		alen = 800
+	}
+	for ms := int64(0); ms < alen; ms += 30 {
 		us = append(us, vf27Unit{Track: atr, T: t0 + ms, NTP: ms, Sync: true})
 	}
 	sort.SliceStable(us, func(i, j int) bool { return us[i].T < us[j].T })
@@ -1010,31 +1024,45 @@ func TestVerif_C27_Crash(t *testing.T) {
 	child := &vf27Child{t: t}
 	defer child.stop()
 	covered := map[string]int{}
+	skipped := false
 
 	for si, kind := range []string{"va", "a"} {
 		dir := t.TempDir()
 		run, byID := vf27StdRun(kind, 10000)
 		files := vf27Record(t, dir, "cam", run)
-		if len(files) != 2 {
-			t.Fatalf("stream %s: expected 2 segments, the recorder made %v", kind, files)
+		if len(files) == 0 {
+			t.Fatalf("stream %s: the recorder made no file", kind)
 		}
-		s1, s2 := vf27LoadSeg(t, files[0]), vf27LoadSeg(t, files[1])
-		if len(s2.Parts) < 3 {
-			t.Fatalf("stream %s: the second segment has %d parts (the classes need 3)", kind, len(s2.Parts))
+		var segs []*vf27Seg
+		layoutOK := true
+		for i, f := range files {
+			sg := vf27LoadSeg(t, f)
+			segs = append(segs, sg)
+			types := []string{}
+			for _, bx := range sg.Boxes {
+				types = append(types, bx.Type)
+			}
+			out.Emit(map[string]any{"kind": "layout", "stream": kind, "seg": i + 1, "boxes": types, "problem": sg.LayoutErr})
+			if sg.LayoutErr != "" {
+				layoutOK = false
+			}
 		}
-		s2full := s2
-		// the crash points are those of the first three parts (a file with fewer parts is a prefix)
-		s2 = &vf27Seg{}
-		*s2 = *s2full
-		s2.Units = append(append([]int{}, s2full.Units[:4]...), s2full.Units[4])
-		s2.Zones = s2full.Zones[:4]
-		s2.Parts = s2full.Parts[:3]
-		s2.Bytes = s2full.Bytes[:s2full.Units[4]]
 		ends := vf27Ends(run)
 
 		// ---- normally closed segments
-		good := vf27Observe(t, child, dir, files[1], -1000)
-		for i, sg := range []*vf27Seg{s1, s2full} {
+		good := vf27Observe(t, child, dir, files[len(files)-1], -1000)
+		all := [][2]int{}
+		numbers := []uint64{}
+		sameStream := true
+		for i, sg := range segs {
+			if sg.LayoutErr != "" {
+				continue
+			}
+			all = append(all, vf27FlatIDs(sg)...)
+			numbers = append(numbers, sg.Number)
+			if sg.Stream != segs[0].Stream {
+				sameStream = false
+			}
 			type fedT struct {
 				Track int   `json:"tr"`
 				ID    int   `json:"id"`
@@ -1042,13 +1070,15 @@ func TestVerif_C27_Crash(t *testing.T) {
 				End   int64 `json:"end"`
 				Sync  bool  `json:"sync"`
 			}
-			var fed []fedT
-			var fileSamples []map[string]any
+			fed := []fedT{}
+			fileSamples := []map[string]any{}
+			unknown := 0
 			for _, p := range sg.Parts {
 				for _, sm := range p {
 					u, ok := byID[sm.ID]
 					if !ok {
-						t.Fatalf("segment holds a sample the harness did not feed: %+v", sm)
+						unknown++
+						continue
 					}
 					// end of the fed sample = start of the next unit of its track (or the run's end)
 					end := ends[u.Track]
@@ -1065,13 +1095,28 @@ func TestVerif_C27_Crash(t *testing.T) {
 				}
 			}
 			out.Emit(map[string]any{"kind": "closed", "stream": kind, "seg": i + 1, "hasVideo": run.Video,
-				"hdrDurMs": sg.HdrDur, "startMs": sg.StartMs, "fed": fed, "file": fileSamples,
+				"hdrDurMs": sg.HdrDur, "startMs": sg.StartMs, "fed": fed, "file": fileSamples, "unknown": unknown,
 				"mtxi": map[string]any{"stream": sg.Stream, "number": sg.Number, "dtsMs": sg.DTSMs}})
 		}
-		out.Emit(map[string]any{"kind": "run", "stream": kind, "nsegs": 2,
-			"sameStream": s1.Stream == s2full.Stream, "numbers": []uint64{s1.Number, s2full.Number},
+		out.Emit(map[string]any{"kind": "run", "stream": kind, "nsegs": len(segs),
+			"sameStream": sameStream, "numbers": numbers,
 			"firstMs": run.Units[0].NTP, "endMs": vf27RunEnd(run, ends),
-			"obs": good, "all": append(vf27FlatIDs(s1), vf27FlatIDs(s2full)...)})
+			"obs": good, "all": all})
+
+		if !layoutOK || len(segs) < 2 || len(segs[1].Parts) < 3 {
+			out.Emit(map[string]any{"kind": "nocrash", "stream": kind,
+				"reason": fmt.Sprintf("layoutOK=%v segments=%d", layoutOK, len(segs))})
+			skipped = true
+			continue
+		}
+		s1, s2full := segs[0], segs[1]
+		// the crash points are those of the first three parts (a file with fewer parts is a prefix)
+		s2 := &vf27Seg{}
+		*s2 = *s2full
+		s2.Units = append(append([]int{}, s2full.Units[:4]...), s2full.Units[4])
+		s2.Zones = s2full.Zones[:4]
+		s2.Parts = s2full.Parts[:3]
+		s2.Bytes = s2full.Bytes[:s2full.Units[4]]
 
 		// ---- crash points of the second segment (the first one stays in the directory)
 		img := append([]byte{}, s2.Bytes...)
@@ -1195,7 +1240,7 @@ func TestVerif_C27_Crash(t *testing.T) {
 		}
 	}
 	for key, cs := range classes {
-		if covered[key] == 0 {
+		if covered[key] == 0 && !skipped {
 			t.Fatalf("crash class %+v generated by the model was not reached by any offset", cs.Cls)
 		}
 	}
